@@ -812,6 +812,16 @@ func (ex *Exec) evalCall(st *State, call *ast.CallExpr) Val {
 		return ex.callGadget(st, call)
 	}
 	args := ex.evalArgs(st, call, sig)
+	if len(call.Args) > 0 {
+		// contracts specialised on the static type of the last argument: key#type
+		lt := ex.info.TypeOf(call.Args[len(call.Args)-1])
+		if lt != nil {
+			tk := key + "#" + types.TypeString(lt, func(p *types.Package) string { return p.Name() })
+			if ct := ex.prog.Contracts.ByKey[tk]; ct != nil {
+				return ex.applyContract(st, ct, f, recv, args, call)
+			}
+		}
+	}
 	if ct := ex.prog.Contracts.ByKey[key]; ct != nil {
 		return ex.applyContract(st, ct, f, recv, args, call)
 	}
